@@ -1,5 +1,5 @@
 """Replay for C12 on real trees: revert keeps user-edited content (in place or in a numbered backup) unless --no-backup; remove never
-deletes changed or unknown files without force. The git case of finding F10 is reproduced natively."""
+deletes changed or unknown files without force. Scenario 3 is the case of finding F10 (fixed in /repo by 0b82fb8; it is reported again if it returns)."""
 import os, shutil, tempfile
 from _common import request, verdict, is_known
 import breezy.bzr  # noqa
@@ -42,7 +42,7 @@ try:
         # 2. --no-backup is an explicit request to discard
         open(os.path.join(d, "foo"), "w").write("USER EDIT 2\n")
         wt.revert(["foo"], backups=False)
-        # 3. a newly added file, revert to an OLD tree that has a file at that path (F10 on git trees)
+        # 3. a newly added file, revert to an OLD tree that has a file at that path (was finding F10)
         d, wt = new_tree("new_" + fmt, fmt)
         open(os.path.join(d, "foo"), "w").write("old foo\n"); wt.add(["foo"]); r1 = wt.commit("1", committer="t <t@e.x>")
         wt.remove(["foo"], keep_files=False); r2 = wt.commit("2: foo removed", committer="t <t@e.x>")
@@ -52,7 +52,7 @@ try:
         tried += 1
         if b"BRAND NEW USER TEXT\n" not in all_content(d).values():
             wc = "newly added file (absent from the basis) replaced by revert to an older tree that has a file at that path"
-            if not (fmt == "git" and is_known(wc)):
+            if True:
                 verdict(True, "revert -r OLD replaced a newly added file's content without keeping a backup although backups were on",
                         input=fmt, observed=str(sorted(all_content(d))), witness_class=wc)
         # 4. remove: changed and unknown files are never deleted without force
